@@ -22,7 +22,7 @@ func (h *Harness) unwind() int {
 }
 
 // probe contracts shipped with the engine (name -> directory under engine/probe)
-var probeContracts = map[string]string{"probe1": "subscriber1", "probe2": "subscriber2"}
+var probeContracts = map[string]string{"probe1": "subscriber1", "probe2": "subscriber2", "probe3": "puller"}
 
 func findHarness(fn string) *Harness {
 	for i := range registry {
@@ -48,6 +48,16 @@ var registry = []Harness{
 	{Prop: "C09", Pkg: "balance", Func: "VerifC09Locks", Link: []string{"netmap", "balance"},
 		Quick: [][]int{{0}, {1}},
 		Bound: "mint, two locks of one owner (amounts, until in -3..300 symbolic), optional burn of the first (0..y1), two ticks with symbolic epochs 1..300 (param: delivered directly / through the Netmap fan-out)"},
+	{Prop: "C02", Pkg: "balance", Func: "VerifC02ThirdPartyContract", Link: []string{"netmap", "balance", "probe3"},
+		Quick: [][]int{{0}, {1}, {2}},
+		Bound: "the public transfer called BY A CONTRACT (probe 'puller') on behalf of a transaction signed by a stranger and, symbolically, the victim: from the victim to the calling contract itself, from the victim to a third account, from the contract's own funds (param0); balances 1..10^6 and the amount in Z symbolic"},
+	{Prop: "C09", Pkg: "balance", Func: "VerifC09Chained", Link: []string{"netmap", "balance"},
+		Quick: [][]int{{0, 0}, {0, 1}},
+		Thorough: [][]int{{0, 0}, {0, 1}, {1, 0}, {1, 1}},
+		Bound: "chained locks: an owner locks y1 on A, the Alphabet locks y2 <= y1 of A's funds on B (amounts, both until epochs 1..300 symbolic), one tick with a symbolic epoch (param0 = 1: through Netmap); param1 swaps the two lock addresses so the tick meets the inner lock before and after the outer one; supply = sum, supply unchanged, no negative balance, notifications reproduce the balances, an unexpired lock keeps its funds"},
+	{Prop: "C01", Pkg: "balance", Func: "VerifC09Chained", Link: []string{"netmap", "balance"},
+		Quick: [][]int{{0, 0}, {0, 1}},
+		Bound: "the chained-lock harness of C09 (a lock whose source is a lock account, both lock-address orders, one tick): supply = sum of balances, no negative balance, the tick's notifications reproduce every balance"},
 	{Prop: "C09", Pkg: "balance", Func: "VerifC09TopUp", Link: []string{"netmap", "balance"},
 		Quick: [][]int{{0, 0}, {1, 1}, {0, 2}},
 		Thorough: [][]int{{0, 0}, {0, 1}, {0, 2}, {1, 0}, {1, 1}, {1, 2}},
@@ -61,15 +71,15 @@ var registry = []Harness{
 		Unwind: 40,
 		Bound: "count c0 (param 0) set at epoch 0, t0 ticks (param 1), resize to symbolic count 0..param 3 (6 quick, 12 thorough), t1 ticks (param 2, plus one if 0); symbolic queries snapshot(d) d in -1..7, snapshotByEpoch(q), listNodes(q2); one node per published map carrying its epoch; param 4: the epoch whose map is published EMPTY (the node goes offline before that tick; 0: none), before or after the resize and after the ring wrapped"},
 	{Prop: "C06", Pkg: "netmap", Func: "VerifC06Tick", Link: []string{"netmap", "balance", "probe1", "probe2"},
-		Quick: [][]int{{0, 0, 1}, {1, 0, 1}, {0, 1, 1}, {0, 0, 5}, {0, 0, 6}}, Thorough: [][]int{{0, 0, 1}, {1, 0, 1}, {2, 0, 1}, {3, 0, 1}, {0, 1, 1}, {1, 1, 1}, {0, 0, 2}, {0, 0, 3}, {0, 0, 4}, {0, 0, 5}, {0, 0, 6}, {0, 0, 7}},
-		Bound: "committee size param2 (1; 5 and 6 in quick, 2..7 in thorough) with the tick signed by a symbolic subset of {Alphabet 2n/3+1 account, committee n/2+1 account}; the two probe subscribers subscribe in the order given by param1 (both orders are run: one contradicts the order of the contract hashes), snapshot count param0 (0: the default 10; 1: the published list is the oldest kept), 3 legacy candidates (Online, Maintenance, Offline->removed), 1 structured, subscribers Balance+probe1+probe2 (probe1 subscribed twice), probe2 refuses one symbolic epoch; two newEpoch invocations with symbolic epochs -2..1000 and symbolic Alphabet signature"},
+		Quick: [][]int{{1, 0, 1, 1}, {0, 0, 1, 1}, {0, 0, 1, 0}, {1, 0, 1, 0}, {0, 1, 1, 0}, {0, 0, 5, 0}, {0, 0, 6, 0}}, Thorough: [][]int{{0, 0, 1, 0}, {1, 0, 1, 0}, {2, 0, 1, 0}, {3, 0, 1, 0}, {0, 1, 1, 0}, {1, 1, 1, 0}, {0, 0, 2, 0}, {0, 0, 3, 0}, {0, 0, 4, 0}, {0, 0, 5, 0}, {0, 0, 6, 0}, {0, 0, 7, 0}},
+		Bound: "committee size param2 (1; 5 and 6 in quick, 2..7 in thorough) with the tick signed by a symbolic subset of {Alphabet 2n/3+1 account, committee n/2+1 account}; the two probe subscribers subscribe in the order given by param1 (both orders are run: one contradicts the order of the contract hashes), snapshot count param0 (0: the default 10; 1: the published list is the oldest kept), 3 legacy candidates (Online, Maintenance, Offline->removed), 1 structured, subscribers Balance+probe1+probe2 (probe1 subscribed twice), probe2 refuses one symbolic epoch; two newEpoch invocations with symbolic epochs -2..1000 and symbolic Alphabet signature; param3 = 1: every candidate goes offline between the two ticks, the second tick publishes empty maps (with snapshot count 1 into the slot that holds the first tick's list)"},
 	{Prop: "C07", Pkg: "netmap", Func: "VerifC07Candidates", Link: []string{"netmap"},
 		Quick: [][]int{{2, 0, 1}, {1, 1, 1}, {1, 2, 1}, {1, 0, 3}, {1, 0, 5}}, Thorough: [][]int{{3, 0, 1}, {2, 1, 1}, {2, 2, 1}, {1, 0, 2}, {1, 0, 3}, {1, 0, 4}, {1, 0, 5}, {1, 0, 6}, {1, 0, 7}},
 		Bound: "committee size param2 (1; 3 and 5 in quick, 2..7 in thorough: one size from every residue class modulo 3, where threshold slips hide), fixture param1 (0: empty; 1/2: n0 held by both lists in different states), then k (param0) consecutive operations, each with symbolic method (addPeer/addPeerIR/addNode/updateState/updateStateIR/deleteNode), symbolic target in the pool {n0,n1}, symbolic state in Z, symbolic Alphabet and node signatures; reference model tracks n0"},
 	{Prop: "C08", Pkg: "netmap", Func: "VerifC08Sequence", Link: []string{"netmap"}, Unwind: 60,
-		Quick:    [][]int{{3, 104, 2, 206, 2, 0, 0, 0}, {12, 204, 3, 106, 1, 0, 0, 0}, {4, 206, 1, 0, 0, 0, 0, 0}},
-		Thorough: [][]int{{3, 104, 2, 206, 2, 0, 0, 0}, {12, 204, 3, 106, 1, 0, 0, 0}, {4, 206, 1, 0, 0, 0, 0, 0}, {2, 113, 1, 112, 1, 0, 0, 0}, {2, 113, 4, 206, 2, 0, 0, 0}, {5, 203, 2, 205, 3, 0, 0, 0}, {11, 103, 2, 212, 2, 0, 0, 0}, {3, 102, 3, 104, 3, 206, 2, 0}},
-		Bound:    "ANY sequence of steps given by the params (n ticks / a resize to a concrete count / a resize to a symbolic count 1..m; up to three resizes, up to 20 epochs) from the default count 10, against a per-epoch reference model; a resize the contract refuses (including one that faults) must change nothing; symbolic queries snapshot(d), snapshotByEpoch(q), listNodes(q2) at the end"},
+		Quick:    [][]int{{3, 104, 2, 206, 2, 0, 0, 0}, {12, 204, 3, 106, 1, 0, 0, 0}, {4, 206, 1, 0, 0, 0, 0, 0}, {7, 103, 206, 0, 0, 0, 0, 0}, {9, 102, 205, 1, 0, 0, 0, 0}, {17, 103, 106, 2, 0, 0, 0, 0}},
+		Thorough: [][]int{{7, 103, 206, 0, 0, 0, 0, 0}, {9, 102, 205, 1, 0, 0, 0, 0}, {17, 103, 106, 2, 0, 0, 0, 0}, {8, 104, 212, 0, 0, 0, 0, 0}, {6, 203, 206, 0, 0, 0, 0, 0}, {3, 104, 2, 206, 2, 0, 0, 0}, {12, 204, 3, 106, 1, 0, 0, 0}, {4, 206, 1, 0, 0, 0, 0, 0}, {2, 113, 1, 112, 1, 0, 0, 0}, {2, 113, 4, 206, 2, 0, 0, 0}, {5, 203, 2, 205, 3, 0, 0, 0}, {11, 103, 2, 212, 2, 0, 0, 0}, {3, 102, 3, 104, 3, 206, 2, 0}},
+		Bound:    "ANY sequence of steps given by the params (n ticks / a resize to a concrete count / a resize to a symbolic count 1..m; up to three resizes, up to 20 epochs) from the default count 10, against a per-epoch reference model; a resize the contract refuses (including one that faults) must change nothing; symbolic queries snapshot(d), snapshotByEpoch(q), listNodes(q2) at the end; among the sequences: a shrink while the ring index is at least twice the new count, followed at once by a grow (leftover slots of the shrink come back inside the ring)"},
 	{Prop: "C17", Unwind: 64, Pkg: "neofs", Func: "VerifC17Ballots", Link: []string{"neofs", "processing"},
 		Quick:    [][]int{{0, 1, 3, 0}, {0, 3, 4, 0}, {0, 4, 4, 0}, {1, 4, 4, 0}, {2, 4, 3, 0}, {3, 4, 3, 0}, {0, 2, 4, 0}, {1, 2, 4, 0}, {2, 2, 4, 0}, {3, 2, 4, 0}, {3, 2, 3, 2}, {3, 2, 4, 2}},
 		Thorough: [][]int{{0, 1, 4, 0}, {0, 2, 4, 0}, {0, 3, 5, 0}, {0, 4, 5, 0}, {0, 5, 5, 0}, {0, 6, 5, 0}, {0, 7, 5, 0}, {1, 2, 4, 0}, {1, 3, 4, 0}, {1, 4, 5, 0}, {1, 7, 5, 0}, {2, 2, 4, 0}, {2, 3, 4, 0}, {2, 4, 4, 0}, {2, 7, 5, 0}, {3, 2, 4, 0}, {3, 3, 4, 0}, {3, 4, 4, 0}, {3, 7, 5, 0}},
@@ -178,6 +188,8 @@ var registry = []Harness{
 		Quick:    [][]int{{1, 0, 0}, {4, 4, 0}, {7, 7, 0}, {1, 4, 1}, {4, 0, 1}, {4, 4, 2}, {4, 0, 3}, {1, 0, 3}},
 		Thorough: [][]int{{1, 0, 0}, {1, 4, 0}, {1, 7, 0}, {4, 0, 0}, {4, 4, 0}, {4, 7, 0}, {7, 0, 0}, {7, 4, 0}, {7, 7, 0}, {1, 0, 1}, {1, 4, 1}, {4, 0, 1}, {4, 7, 1}, {7, 4, 1}, {1, 0, 2}, {4, 4, 2}, {7, 7, 2}, {1, 0, 3}, {4, 0, 3}, {7, 4, 3}},
 		Bound:    "five linked contracts; committee size param0 in {1,4,7}; V2 blob with version-field length param1 in {0,4,7} and every other byte symbolic; fees (0 included), owner balance symbolic; symbolic Alphabet signature; param2: 1 = named container (alias fee, NNS registration), 2 = named with a domain registered in advance by the committee, 3 = the owner is the first Alphabet node itself (one fee leg is a self-transfer); then the fee is changed and a second container is put"},
+	{Prop: "C04", Unwind: 300, Pkg: "container", Func: "VerifC04ExpiredAlias", Link: []string{"nns", "netmap", "balance", "neofsid", "container"},
+		Bound: "a container put under a name whose domain the committee registered with a symbolic lifetime 1..1000 s, a symbolic time span 1..1.1*10^6 ms, then delete: successful whether or not the domain has lapsed, complete (getters, count, alias, one DeleteSuccess) and final (the blob is refused afterwards, plain and named)"},
 	{Prop: "C04", Pkg: "container", Func: "VerifC04Registry", Link: []string{"nns", "netmap", "balance", "neofsid", "container"},
 		Quick:    [][]int{{2, 0, 0, 3}, {2, 4, 2, 3}, {2, 0, 0, 4}, {2, 7, 3, 0}, {2, 0, 2, 2}, {2, 4, 1, 3}, {2, 0, 4, 3}, {2, 0, 0, 0}, {2, 4, 0, 2}, {2, 0, 2, 0}, {2, 0, 3, 3}, {2, 0, 2, 4}, {3, 0, 0, 4, 3}, {3, 4, 0, 3, 0}, {3, 0, 1, 3, 1}, {3, 4, 2, 3, 2}, {3, 100, 0, 4, 3}, {2, 100, 0, 3}, {3, 0, 0, 4, 0}},
 		Thorough: c04Thorough(),
@@ -197,6 +209,8 @@ var registry = []Harness{
 		Bound: "history: a.com registered by o1, one record, admin a1 (variant 0) / then transferred to o2 (variant 1) / then expired and registered again by o2 (variant 2: the appointed admin must be gone); ONE invocation of the method given by param1 (addRecord, setRecord, deleteRecords, updateSOA, renew, setAdmin, transfer, register 3rd level, register 2nd level, registerTLD, setPrice, register 4th level under a 3rd-level name of another owner) with a symbolic signer set over {o1,o2,o3,a1,new admin,committee}+stranger; committee size param2"},
 	{Prop: "C12", Pkg: "nns", Func: "VerifC12Records", Link: []string{"nns"}, Unwind: 100,
 		Bound: "one registered name; a fixed sequence of record operations (add, add-possibly-duplicate, setRecord with symbolic index 0..2, add to an unregistered sub-name, registration attempt of a name whose sub-name has records, delete SOA, delete TXT) with symbolic 3-byte record data and a symbolic block clock; getRecords/getAllRecords and the SOA record (serial = time of the last mutation) compared with a model after each step"},
+	{Prop: "C12", Pkg: "nns", Func: "VerifC12DeepSubName", Link: []string{"nns"}, Unwind: 100,
+		Bound: "one registered name; records with symbolic 3-byte data for a sub-name one label below it and for a sub-name TWO labels below it (the name in between is not registered), read back through getRecords, getAllRecords, resolve and resolve with a trailing dot; fixed block clock"},
 	{Prop: "C12", Pkg: "nns", Func: "VerifC12Limits", Link: []string{"nns"}, Unwind: 100,
 		Quick: [][]int{{17}}, Thorough: [][]int{{16}, {17}, {18}},
 		Bound: "param0 additions of distinct TXT records (one symbolic byte each): exactly the first 16 are accepted; a second CNAME is refused"},
@@ -213,6 +227,10 @@ var registry = []Harness{
 	{Prop: "C03", Pkg: "proxy", Func: "VerifC03", Link: []string{"alphabet", "audit", "balance", "container", "neofs", "neofsid", "netmap", "nns", "processing", "proxy", "reputation", "probe1"},
 		Quick: c03Params([]int{5, 6, 7}), Thorough: c03Params([]int{1, 2, 3, 4, 5, 6, 7}),
 		Bound: "one invocation per mutating method (47 methods of 10 contracts; Container put / putNamed / delete / setEACL also with a non-empty session token, so that NeoFSID's own Alphabet check cannot stand in for a missing one; plus the public Balance transfer with a Null sender and Audit.put in the block right after an Inner Ring re-designation, by a dropped and by a new member; NNS is C11, update is C16) from a small fixture built through the API, arguments concrete/valid, signer set symbolic over {Alphabet 2n/3+1 account, committee n/2+1 account, Inner Ring majority account, one committee member, the named user, the named node}+stranger; committee size = param2 (5, 6, 7 in quick, 1..7 in thorough: the two thresholds differ and every residue class modulo 3 is present, since a slip in the 2n/3+1 arithmetic shows in one class only)"},
+	{Prop: "C03", Pkg: "proxy", Func: "VerifC16Gate", Link: []string{"alphabet", "audit", "balance", "container", "neofs", "neofsid", "netmap", "nns", "processing", "proxy", "reputation"},
+		Quick:    [][]int{{0, 7}, {1, 7}, {2, 7}, {3, 7}, {4, 7}, {5, 7}, {6, 7}, {7, 7}, {8, 7}, {9, 7}, {10, 7}},
+		Thorough: [][]int{{0, 7}, {1, 7}, {2, 7}, {3, 7}, {4, 7}, {5, 7}, {6, 7}, {7, 7}, {8, 7}, {9, 7}, {10, 7}, {4, 1}, {8, 1}, {4, 4}, {8, 4}},
+		Bound:    "the update gate harness of C16 for all 11 contracts at committee size param1: update has no effect without the documented majority (committee n/2+1; for NeoFS and Processing the majority of the DESIGNATED NeoFS Alphabet keys, which are not the committee's)"},
 	{Prop: "C03", Pkg: "proxy", Func: "VerifC03Verify", Link: []string{"alphabet", "netmap", "neofs", "processing", "proxy"},
 		Quick: [][]int{{5}, {6}, {7}}, Thorough: [][]int{{1}, {2}, {3}, {4}, {5}, {6}, {7}},
 		Bound: "verify of Proxy, Alphabet and Processing with the same symbolic signer set"},
@@ -243,9 +261,9 @@ var registry = []Harness{
 		Quick: [][]int{{0, 1}, {0, 2}, {1, 0}},
 		Bound: "Audit storage of an older release preset raw: two results of two Inner Ring members under their ids (symbolic epochs 1..127, container ids, tails), the Netmap hash older releases stored, era param0 (0: v in [0.15.4,0.17.0) with the notary flag false/true = param1 1/2 — Audit never collected votes, there are no ballots —, 1: [0.17.0,current)), symbolic version inside the era; get, list (which enumerates every storage key), listByEpoch, then one more put"},
 	{Prop: "C16", Pkg: "netmap", Func: "VerifC16MigrateNetmap", Link: []string{"netmap", "probe1", "probe2"},
-		Quick:    [][]int{{0, 0}, {0, 1}, {0, 2}, {0, 3}, {0, 4}, {0, 5}, {0, 6}, {0, 7}, {1, 0}, {1, 2}, {1, 4}, {1, 5}, {1, 6}, {2, 0}},
-		Thorough: [][]int{{0, 0}, {0, 1}, {0, 2}, {0, 3}, {0, 4}, {0, 5}, {0, 6}, {0, 7}, {1, 0}, {1, 1}, {1, 2}, {1, 3}, {1, 4}, {1, 5}, {1, 6}, {1, 7}, {2, 0}},
-		Bound:    "LEGACY Netmap storage preset raw (not producible by the current code): era param0 (0: v in [0.15.4,0.16.0) one-field snapshot nodes and {{BLOB},state} candidates; 1: [0.16,0.17); 2: [0.17,0.19)), notary flag param1 (absent / false / true without ballots / true with a stale ballot / true with a pending ballot / true with a ballot whose last vote is a symbolic 15..25 blocks before the update: refused iff <= 20, witnesses at exactly 20 and 21 replayed / true with two ballots, a pending one before or after a stale one); symbolic version inside the era, epoch 1..1000, current snapshot id, two candidates with symbolic states 1..3, 3-byte-symbolic node blobs, one config value; the working tree's _deploy(data||v, true) runs on it; replay: a stand-in contract of the same manifest name receives the raw items and is updated to the real NEF"},
+		Quick:    [][]int{{0, 8}, {0, 0}, {0, 1}, {0, 2}, {0, 3}, {0, 4}, {0, 5}, {0, 6}, {0, 7}, {1, 0}, {1, 2}, {1, 4}, {1, 5}, {1, 6}, {2, 0}},
+		Thorough: [][]int{{0, 8}, {0, 0}, {0, 1}, {0, 2}, {0, 3}, {0, 4}, {0, 5}, {0, 6}, {0, 7}, {1, 0}, {1, 1}, {1, 2}, {1, 3}, {1, 4}, {1, 5}, {1, 6}, {1, 7}, {2, 0}},
+		Bound:    "LEGACY Netmap storage preset raw (not producible by the current code): era param0 (0: v in [0.15.4,0.16.0) one-field snapshot nodes and {{BLOB},state} candidates; 1: [0.16,0.17); 2: [0.17,0.19)), notary flag param1 (absent / false / true without ballots / true with a stale ballot / true with a pending ballot / true with a ballot whose last vote is a symbolic 15..25 blocks before the update: refused iff <= 20, witnesses at exactly 20 and 21 replayed / true with two ballots, a pending one before or after a stale one; 8 (era 0): false, and a history extended from 2 to 4 snapshots and not refilled, i.e. a ring with missing slots in the middle); symbolic version inside the era, epoch 1..1000, current snapshot id, two candidates with symbolic states 1..3, 3-byte-symbolic node blobs, one config value; the working tree's _deploy(data||v, true) runs on it; replay: a stand-in contract of the same manifest name receives the raw items and is updated to the real NEF"},
 }
 
 func c03Params(sizes []int) [][]int {
